@@ -8,7 +8,8 @@ Leg S2C : TLC states (inputs) become REAL team directories (cars/v1/*.ini, <base
           Jinja templates and binary blobs) and a stub distribution tar.gz; the real team.load_car, ElasticsearchInstaller,
           BareProvisioner.prepare (1-3 nodes of one host, one after the other from the ONE composed Car object, as
           mechanic.create does), provisioner.docker(...).prepare on the same car (rendered config files, docker-compose.yml)
-          and provisioner.cleanup run on them (harness/teamfs.py).
+          and provisioner.cleanup run on them (harness/teamfs.py); a few teams with non-ASCII template text / variable values
+          are also provisioned by a child interpreter under LC_ALL=C with UTF-8 mode off (harness/teamchild.py).
 Leg C2S : every execution (S2C ones and seeded random, larger teams not derived from TLC) is projected to JSON (Car, variables
           handed to the templates, installation tree, directories after cleanup) and validated by TLC against TraceTeam.tla
           (L1 = clauses of C13, L2 = equality with the transcription).
@@ -21,7 +22,7 @@ import shutil
 import tempfile
 import time
 
-from .. import teamfs, tlc, tracecheck
+from .. import teamchild, teamfs, tlc, tracecheck
 from ..core import Violation
 from ..tlaparse import parse_state, to_json
 
@@ -236,6 +237,7 @@ def _sig(it, clauses):
         "preserve": inp["preserve"],
         "data_path_kinds": sorted({_dp_kind(p) for p in it["out"]["dataPaths"]}),
         "nodes": 1 + len(inp["more"]),
+        "locale": it.get("mat", {}).get("locale", "utf-8"),
     }
 
 
@@ -253,7 +255,7 @@ def _detail(it):
         it["out"]["paths"],
         it["out"]["dataPaths"],
         sorted(p for p, e in it["out"]["after"]["exists"].items() if e),
-        later + (" docker=%s" % it["out"]["docker"]["err"]),
+        later + (" docker=%s locale=%s" % (it["out"]["docker"]["err"], it.get("mat", {}).get("locale", "utf-8"))),
     )
 
 
@@ -326,6 +328,32 @@ def run(ctx, out):
         for n in range(300 if quick else 4000):
             it = run_item(root, adir, "r%d" % n, random_inp(rnd), rnd.randrange(1 << 20), rnd.choice([1, 1, 1, 2, 2, 3]))
             items.append(it)
+        # ---- locale leg: a few teams with non-ASCII characters in template text (the delimiters around every rendered value)
+        # and in variable values (car params) are provisioned in-process (UTF-8) AND by a child interpreter with LC_ALL=C,
+        # UTF-8 mode off: what is written must not depend on the locale (file content is compared as UTF-8 decoded bytes)
+        rnd2 = random.Random(ctx.seed + 1313)
+        loc = []
+        while len(loc) < (6 if quick else 40):
+            inp = random_inp(rnd2)
+            ment = {b for c in inp["cars"] for b in c["bases"]}
+            if not any(f["kind"] == "text" for b in ment for f in inp["bases"][b]["tree"]):
+                continue
+            inp["params"]["x"] = S("x-\u00fc\u20ac-%d" % len(loc))
+            inp["params"]["verbose"] = S("\u00fcn\u00ef \u4e2d")
+            for refs in inp["tpl"].values():
+                for k2 in ("x", "verbose"):
+                    if k2 not in refs:
+                        refs.append(k2)
+            it = run_item(root, adir, "u%d" % len(loc), inp, rnd2.randrange(1 << 20), rnd2.choice([1, 2]))
+            loc.append(it)
+            items.append(it)
+        child_cases = [{"inp": it["inp"], "mat": dict(it["mat"], locale="C")} for it in loc]
+        enc, outs = teamchild.run_cases(child_cases, os.path.join(root, "child"))
+        if "utf" in enc.lower() or len(outs) != len(loc):
+            out.vacuous.append("child interpreter does not run with a non-UTF-8 locale (%s)" % enc)
+        for n, (c, o) in enumerate(zip(child_cases, outs)):
+            items.append({"id": "c%d" % n, "inp": c["inp"], "mat": c["mat"], "out": o})
+        out.extra["locale_leg"] = {"cases": len(loc), "child_encoding": enc}
     finally:
         shutil.rmtree(root, ignore_errors=True)
     # coverage of the interesting situations, judged by the INPUTS (never by what the code under test produced)
@@ -393,7 +421,10 @@ def run(ctx, out):
 def replay(ctx, case):
     root = _case_root()
     try:
-        out = teamfs.execute(os.path.join(root, "case"), case["inp"], case["mat"], os.path.join(root, "archives"))
+        if case["mat"].get("locale") == "C":
+            out = teamchild.run_cases([case], os.path.join(root, "child"))[1][0]
+        else:
+            out = teamfs.execute(os.path.join(root, "case"), case["inp"], case["mat"], os.path.join(root, "archives"))
     finally:
         shutil.rmtree(root, ignore_errors=True)
     it = {"id": "replay", "inp": case["inp"], "out": out}
